@@ -41,6 +41,16 @@ func fixedScenarios() []*Scenario {
 		// every way to panic, in OnStop hooks and in reload hooks (SIGHUP and programmatic)
 		{Stops: []int{bPanicNilPtr, bOK, bPanicNilMap, bPanicIndex, bOK, bPanicDivZero, bPanicAssert, bPanicErr, bPanicCustom, bOK}},
 		{NReload: 1, Stops: []int{bOK}, Rounds: []Round{{Trig: 1, Beh: []int{bPanicNilPtr}, CancelAt: -1}, {Trig: 0, Beh: []int{bPanicIndex}, CancelAt: -1}, {Trig: 1, Beh: []int{bPanicAssert}, CancelAt: -1}, {Trig: 0, Beh: []int{bPanicCustom}, CancelAt: -1}}},
+		// a SIGHUP during the shutdown sequence (with and without reload hooks): the process must survive it
+		{NReload: 1, Shuts: []int{bOK, bOK}, Stops: []int{bOK}, LateHup: 1},
+		{NReload: 2, Metrics: true, Stops: []int{bOK, bOK}, Reqs: []Rel{{Kind: "D"}}, LateHup: 2},
+		{Shuts: []int{bOK}, Stops: []int{bOK}, LateHup: 1},
+		// metrics over OTLP to a collector that is gone: its failing shutdown must not keep the traces from being flushed
+		{MetDead: true, Tracing: true, Starts: []int{bOK}, Readies: []int{bOK}, Shuts: []int{bOK}, Stops: []int{bOK}, Reqs: []Rel{{Kind: "D"}}},
+		{MetDead: true, Tracing: true, Starts: []int{bOK, bErr}, Stops: []int{bOK}},
+		// start-up fails right after startObservability while the metrics server goroutine is still on its way
+		{Metrics: true, MetricsRace: true, Listen: lBusy, Readies: []int{bOK}, Stops: []int{bOK}},
+		{Metrics: true, MetricsRace: true, Tracing: true, Listen: lBad},
 		// the two entry points mixed: SIGHUP during a programmatic Reload, Reload during a SIGHUP round
 		{NReload: 2, Shuts: []int{bOK}, Stops: []int{bOK}, Rounds: []Round{{Trig: 0, Beh: []int{bOK, bOK}, CancelAt: -1, Pair: true}, {Trig: 1, CancelAt: -1}, {Trig: 0, CancelAt: -1}}},
 		{NReload: 1, Stops: []int{bOK}, Rounds: []Round{{Trig: 1, CancelAt: -1, Pair: true}, {Trig: 0, Beh: []int{bErr}, CancelAt: -1}}},
@@ -167,6 +177,24 @@ func genScenario(r *hx.Rand, tier string) *Scenario {
 				a.Pair = true
 				i++
 			}
+		}
+	}
+	// particular configurations
+	if !sc.Metrics && r.Chance(1, 5) {
+		sc.MetDead = true
+	}
+	if r.Chance(1, 10) {
+		if len(sc.Shuts) > 0 && r.Chance(1, 2) {
+			sc.LateHup = 1
+		} else if len(sc.Stops) > 0 {
+			sc.LateHup = 2
+		}
+	}
+	if r.Chance(1, 30) {
+		// start-up fails right after startObservability, with a slow metrics event handler
+		sc.Metrics, sc.MetDead, sc.MetricsRace, sc.Starts = true, false, true, nil
+		if sc.Listen == lOK || sc.Listen == lCert {
+			sc.Listen = lBusy
 		}
 	}
 	// Scenarios that use the process-wide SIGHUP (or read goroutine dumps) run one after the other; most of
